@@ -8,6 +8,17 @@ HERE = os.path.dirname(os.path.dirname(os.path.abspath(__file__)))
 ALL = ["C%02d" % i for i in range(1, 21)]
 
 CHECKS = {
+ "C09": dict(
+  category="exploration",
+  text="Structural invariant checked on the two live Parser objects at a quiescent point: a lock-step product walk from state 0 "
+       "of the parser embossc actually loads (parser.module_parser()/expression parser) and a parser freshly generated from "
+       "module_ir.PRODUCTIONS + error_examples builds the state bijection and compares action kind, shift target, reduce "
+       "production, error code, goto and default_errors for every reachable pair and every symbol (exhaustive over the finite "
+       "tables, so it decides 'for all token sequences' for the table interpreter). Plus a differential execution monitor on "
+       "sampled token sequences, and production-set / token-table equality with doc/grammar.md.",
+  note="Assumes lr1.Parser.parse's behaviour is a function of (action, goto, default_errors) only; doc parsed by vlib/docgrammar.py.",
+  technique="live-structure invariant (exhaustive automaton product walk) + differential execution monitor",
+  design_ref="5/C09"),
  "C08": dict(
   category="exploration",
   text="Runs the real lr1.Grammar(...).parser() on thousands of random small CFGs (textbook LR(1)/non-LALR/ambiguous seeds, "
